@@ -7,6 +7,7 @@ import (
 	"github.com/orda-io/orda/client/pkg/iface"
 	"github.com/orda-io/orda/client/pkg/model"
 	"github.com/orda-io/orda/client/pkg/operations"
+	"github.com/orda-io/orda/client/pkg/vhook"
 )
 
 // WiredDatatype implements the datatype features related to the synchronization with Orda server
@@ -213,6 +214,7 @@ func (its *WiredDatatype) updateStateOfDatatype(
 // ApplyPushPullPack applies for PushPullPack
 func (its *WiredDatatype) ApplyPushPullPack(ppp *model.PushPullPack) {
 	defer its.L().Infof("end ApplyPushPull")
+	vhook.At("wired.apply")
 	var oldState, newState model.StateOfDatatype
 	var errs errors.OrdaError = &errors.MultipleOrdaErrors{}
 	var opList []interface{}
@@ -231,6 +233,7 @@ func (its *WiredDatatype) ApplyPushPullPack(ppp *model.PushPullPack) {
 	} else {
 		errs = errs.Append(err)
 	}
+	vhook.Go()
 	go its.callHandlers(errs, oldState, newState, opList)
 }
 
@@ -240,6 +243,7 @@ func (its *WiredDatatype) callHandlers(
 	newState model.StateOfDatatype,
 	opList []interface{},
 ) {
+	defer vhook.Done()
 	if oldState != newState {
 		its.HandleStateChange(oldState, newState)
 	}
